@@ -498,6 +498,11 @@ impl<'a, 'b> Gen<'a, 'b> {
         if total == 0 {
             return None;
         }
+        // rich mode: half of the references go to the most recently defined type, which builds
+        // reference chains (A -> B -> C) instead of stars
+        if self.cfg.rich && !own.is_empty() && self.t.bool() {
+            return Some(Ty::Ref(None, own[own.len() - 1].clone()));
+        }
         let i = self.t.below(total);
         if i < own.len() {
             Some(Ty::Ref(None, own[i].clone()))
@@ -556,6 +561,11 @@ impl<'a, 'b> Gen<'a, 'b> {
                 let (s, n) = all[self.t.below(all.len())].clone();
                 return ArrLen::Ref(s, n);
             }
+        }
+        if self.cfg.rich {
+            // generated Rust arrays live on the stack (and are copied around while decoding):
+            // lengths stay small so that nested arrays do not exhaust it
+            return ArrLen::Lit((*self.t.pick(&["1", "2", "3", "4", "8"])).to_string());
         }
         ArrLen::Lit((*self.t.pick(&["1", "2", "3", "16", "255"])).to_string())
     }
@@ -780,6 +790,8 @@ impl<'a, 'b> Gen<'a, 'b> {
                 let kw = *self.t.pick(INT_KWS);
                 let lit = if self.slip() {
                     (*self.t.pick(ODD_INTS)).to_string()
+                } else if self.cfg.rich && self.t.bool() {
+                    (1 + self.t.below(8)).to_string()
                 } else {
                     (1 + self.t.below(100)).to_string()
                 };
@@ -822,10 +834,18 @@ impl<'a, 'b> Gen<'a, 'b> {
             2 => Def::Service(self.service()),
             3 => {
                 let pre = self.prelude(true, false);
+                // rich mode: keyword names for constants only now and then (the Rust generator
+                // does not escape them, see the C16 findings, and every hit costs a whole group)
+                let rich = self.cfg.rich;
+                if rich && !self.t.chance(80) {
+                    self.cfg.rich = false;
+                }
                 let name = self.def_name(CONST_NAMES, ODD_CONST_NAMES);
+                self.cfg.rich = rich;
                 let val = self.const_val();
                 if let ConstVal::Int(_, lit) = &val {
-                    if lit.parse::<u32>().map_or(false, |v| v > 0 && v < 1000) && !lit.starts_with('0') {
+                    let max = if self.cfg.rich { 8 } else { 999 };
+                    if lit.parse::<u32>().map_or(false, |v| v > 0 && v <= max) && !lit.starts_with('0') {
                         self.int_consts.push(name.clone());
                         self.exports.int_consts.push(name.clone());
                     }
